@@ -306,6 +306,8 @@ def r9_lag(F, rep, rid="C04-R9"):
 
 
 def run(F, rep, tier):
+    from .rules_c15 import delegated_members
+    delegated_members(F, rep, "C04-R10")   # whether the ABF grid is periodic is asked about the grid's own boundaries
     r9_lag(F, rep)
     r8(F, rep)
     r6(F, rep)
